@@ -35,6 +35,7 @@ fn rand_vfunc(t: &mut Tape, name: String) -> Func {
         args.push(Arg::Named(format!("p{k}"), ty));
     }
     Func {
+        sty: 0,
         vis: t.chance(2, 3),
         name,
         doc: vec![],
@@ -373,6 +374,6 @@ pub fn props() -> Vec<Box<dyn DynProp>> {
 pub fn run(ctx: &mut Ctx) {
     let q = ctx.quick();
     ctx.run(&Verdict_, &Params::new(if q { 20_000 } else { 500_000 }, 30, 300));
-    ctx.run(&SharedPointer, &Params::new(if q { 500 } else { 20_000 }, 100, 2000).shrink(100));
-    ctx.run(&Accessor, &Params::new(if q { 200 } else { 6000 }, 200, 3000).shrink(60));
+    ctx.run(&SharedPointer, &Params::new(if q { 3000 } else { 80_000 }, 100, 2000).shrink(100));
+    ctx.run(&Accessor, &Params::new(if q { 1000 } else { 30_000 }, 200, 3000).shrink(60));
 }
